@@ -249,7 +249,11 @@ class Var:
             if 'null' in args and not val and val != 0:
                 try:
                     if hasattr(val, fmt):
+                        wastainted = isinstance(val, TaintedString)
                         val = _get(val, fmt)()
+                        if wastainted and isinstance(val, str) and \
+                           '<' in val:
+                            val = TaintedString(val)
                     elif fmt in special_formats:
                         if fmt == 'html-quote' and \
                            isinstance(val, TaintedString):
@@ -278,7 +282,10 @@ class Var:
                 # We duplicate the code here to avoid exception handler
                 # which tends to screw up stack or leak
                 if hasattr(val, fmt):
+                    wastainted = isinstance(val, TaintedString)
                     val = _get(val, fmt)()
+                    if wastainted and isinstance(val, str) and '<' in val:
+                        val = TaintedString(val)
                 elif fmt in special_formats:
                     if fmt == 'html-quote' and \
                        isinstance(val, TaintedString):
